@@ -131,3 +131,83 @@ Theorem C13_audit_line_buffer_wiring :
   resolve_shared gen_shared "auditLogChan" = Some (WMake "chan string" (Some (WInt Gen.Consts.auditLogChanBufSize))).
 Proof. exact audit_line_buffer_wiring. Qed.
 Print Assumptions C13_audit_line_buffer_wiring.
+
+(* ================= how cancellation reaches the workers: the errgroup's derived context, as a machine =================
+   The context every worker watches is the errgroup's (C13_workers_run_on_group_context).  Model/Errgroup.v is
+   golang.org/x/sync/errgroup v0.4.0 with that context (context.WithCancelCause: first cancellation wins) as a concurrent
+   small-step machine; see Props/C08.v for the machine as a whole.  Here: when and why that context is cancelled, for EVERY
+   script (number of workers, what each worker function returns) and EVERY schedule. *)
+From AM Require Import Model.Errgroup Proofs.ErrgroupLemmas.
+
+(* a cancelled group context is never un-cancelled and keeps its cause, whatever runs afterwards *)
+Theorem C13_errgroup_ctx_stable : forall sc sched c k,
+  s_ctx (fst c) = Some k -> s_ctx (fst (run sc c sched)) = Some k.
+Proof. exact ctx_stable. Qed.
+Print Assumptions C13_errgroup_ctx_stable.
+
+(* a cancellation of the parent (SIGTERM / SIGINT cancel the root context, C08_signals_from_source) cancels a live group
+   context in that very step *)
+Theorem C13_errgroup_parent_cancel_reaches : forall sc c,
+  s_ctx (fst c) = None -> s_ctx (fst (step sc c TX)) = Some CParent.
+Proof. exact parent_cancel_step. Qed.
+Print Assumptions C13_errgroup_parent_cancel_reaches.
+
+(* NO SPURIOUS CANCELLATION, and the cause: if the parent was cancelled at some point the group context is cancelled; and a
+   cancelled group context carries
+   - the parent's cause, and then the parent was cancelled; or
+   - an error e: then g.err = e, and e is what the worker function of the goroutine that won the Once had returned; or
+   - context.Canceled (cancel(nil)): then Wait has passed wg.Wait and every worker function returned nil. *)
+Theorem C13_errgroup_ctx_cause : forall sc sched,
+  let s := fst (exec sc sched) in let tr := snd (exec sc sched) in
+  (In EvExt tr -> s_ctx s <> None) /\
+  forall k, s_ctx s = Some k ->
+  match k with
+  | CParent => In EvExt tr
+  | CErr e => s_err s = Some e /\
+              exists j w, filter is_enter tr = [EvEnter j] /\ In (EvRet j (Some e)) tr /\
+                          nth_error sc j = Some w /\ w_res w = Some e
+  | CNil => passed_wait (s_c s) = true /\ In EvWaitPass tr /\ forall i w, nth_error sc i = Some w -> w_res w = None
+  end.
+Proof. exact ctx_cause. Qed.
+Print Assumptions C13_errgroup_ctx_cause.
+
+(* every cancel call made by a goroutine of the group comes after that goroutine's own worker function returned the error
+   it cancels with *)
+Theorem C13_errgroup_cancel_after_failure : forall sc sched i v l1 l2,
+  snd (exec sc sched) = (l1 ++ EvCancel i v :: l2)%list -> exists e, v = Some e /\ In (EvRet i (Some e)) l2.
+Proof. exact cancel_after_failure. Qed.
+Print Assumptions C13_errgroup_cancel_after_failure.
+
+(* BOUNDED-STEP cancellation.  Once a goroutine has entered the Once body (its worker function was the first to fail, in
+   the order of entering errOnce.Do), the context is cancelled as soon as THAT goroutine has been scheduled twice more
+   (g.err = err; g.cancel(g.err)) - nothing can block it there -, with that error as cause unless the parent's cancellation
+   came first.  (From the failing function's return it is three steps of that goroutine: the entry of errOnce.Do comes first.) *)
+Theorem C13_errgroup_cancel_two_steps : forall sc sched j e seg,
+  s_g (fst (exec sc sched)) j = GB1 e -> 2 <= count_occ tid_eq_dec seg (TG j) ->
+  s_ctx (fst (exec sc (sched ++ seg))) = Some (CErr e) \/ s_ctx (fst (exec sc (sched ++ seg))) = Some CParent.
+Proof. exact cancel_two_steps. Qed.
+Print Assumptions C13_errgroup_cancel_two_steps.
+
+(* ... and under fairness: from ANY state of any execution in which some worker function has returned a non-nil error -
+   whichever goroutine wins the Once, whoever is blocked on it -, three fair rounds leave the group context cancelled
+   (a round = the caller and every goroutine of the group scheduled at least once; one round to get a failed goroutine
+   into the Once, two for its two statements) *)
+Theorem C13_errgroup_cancel_fair : forall sc sched i e c',
+  g_ret (s_g (fst (exec sc sched)) i) = Some (Some e) -> erounds sc 3 (exec sc sched) c' -> s_ctx (fst c') <> None.
+Proof. exact cancel_fair. Qed.
+Print Assumptions C13_errgroup_cancel_fair.
+
+(* concrete runs: three workers, the second fails with error 7 while the others wait for the context.  Before its
+   cancel statement the context is live and the waiting workers cannot return; two steps after it entered the Once the
+   context carries error 7 and they can; a signal first, and the cause is the parent's *)
+Example C13_errgroup_examples :
+  let sc := [mkW true (Some 0); mkW false (Some 7); mkW true (Some 0)] in
+  let started := [TC; TC; TC; TC; TC; TC] in
+  s_g (fst (exec sc (started ++ [TF 1; TG 1]))) 1 = GB1 7 /\
+  s_ctx (fst (exec sc (started ++ [TF 1; TG 1; TG 1]))) = None /\
+  act sc (fst (exec sc (started ++ [TF 1; TG 1; TG 1]))) (TF 0) = None /\
+  s_ctx (fst (exec sc (started ++ [TF 1; TG 1] ++ [TG 1; TF 0; TG 1]))) = Some (CErr 7) /\
+  g_ret (s_g (fst (exec sc (started ++ [TF 1; TG 1; TG 1; TG 1; TF 0]))) 0) = Some (Some 0) /\
+  s_ctx (fst (exec sc (started ++ [TF 1; TG 1; TX] ++ [TG 1; TG 1]))) = Some CParent /\
+  s_err (fst (exec sc (started ++ [TF 1; TG 1; TX] ++ [TG 1; TG 1]))) = Some 7.
+Proof. vm_compute. repeat split; reflexivity. Qed.
